@@ -3,7 +3,7 @@ import numpy as np
 
 from .. import graphs as G
 from .. import oracles as O
-from .common import close
+from .common import close, vector_forms_agree
 from ..monitor import CaseTimeout
 
 PROP = 'C14'
@@ -152,6 +152,12 @@ def run(case, bct, REC):
                              ('communities>=2',) if k >= 2 else ('single_community',))
                         if k >= 2 and rname in ('reversed', 'random_injective', 'shuffled'):
                             REC.note_nontrivial(PROP, fname, X, ci, rname, vi)
+        # the affiliation vector held as a column (N,1) or a row (1,N): judged wherever the routine returns for it
+        if case['rs'] % 4 == 0:
+            for fname, variants in CONSUMERS.items():
+                need = NEEDS[fname]
+                X = W[need] if need != 'any' else W['und']
+                vector_forms_agree(REC, PROP, fname, lambda X_, c_, fn=variants[0]: fn(bct, X_, c_), (X, ci), {}, 1)
         REC.sample(PROP, {'kind': kind, 'ci': ci, 'relabellings': {a: b for a, b in rel.items()}}, cap=3)
     elif kind in ('pd', 'pd_random', 'pd_long'):
         if kind == 'pd_long':
@@ -204,6 +210,18 @@ def run(case, bct, REC):
                     REC.check(PROP, 'partition_distance', 'label_invariant', False, dict(det, relabelling=rname, exception=repr(e)[:200]))
             if len(np.unique(a)) >= 2 and len(np.unique(b)) >= 2:
                 REC.note_nontrivial(PROP, 'pd', a, b)
+            if bi == 0 and len(a) <= 60:
+                vector_forms_agree(REC, PROP, 'partition_distance', bct.partition_distance, (a, b), {}, 0)
+                vector_forms_agree(REC, PROP, 'partition_distance', bct.partition_distance, (a, b), {}, 1)
+                col = lambda x, y: bct.partition_distance(x.reshape(-1, 1), y.reshape(-1, 1))   # noqa: both as columns
+                try:
+                    r2 = col(a.copy(), b.copy())
+                    REC.check(PROP, 'partition_distance', 'vector_form_independent', close(np.array(r2, dtype=float), np.array([v, m]), rtol=1e-9, atol=1e-12),
+                              dict(det, both_as_columns=r2), ('form:both_columns',))
+                except CaseTimeout:
+                    raise
+                except Exception:  # noqa
+                    REC.skip(PROP, 'partition_distance', 'vector_form_independent')
     elif kind == 'agreement':
         rs = np.random.RandomState(case['rs'])
         n, m = case['n'], case['m']
